@@ -379,19 +379,25 @@ def parseSam (S : Schema) (bs : Bytes) : Except Err (Nat × List Col) := do
 
 /-- `OneLineBuffer.from_raw_buffer/_get_buffer_extractor`: newline positions, cut to a multiple of `k`,
 field starts = previous newline + 1 + line offset -/
-def klineRows (k : Nat) (offsets : List Nat) (bs : Bytes) : Except Err (List (List (Nat × Nat))) :=
+def klineTable (k : Nat) (offsets : List Nat) (bs : Bytes) : Except Err (List (List (Nat × Nat))) :=
   let nls := delimsFrom (· == 10) 0 bs
   if k = 0 ∨ nls.length < k then .error .other else
   let nls := nls.take (nls.length - nls.length % k)
   let starts := 0 :: nls.dropLast.map (· + 1)
   let rows := chunkF k (nls.length / k) (List.zip starts nls)
-  let rows := rows.map (fun r => (List.zip r (offsets ++ List.replicate k 0)).map (fun po => (po.1.1 + po.2, po.1.2)))
-  -- `_modify_for_carriage_return`: looks at the first line of the first k entries
+  .ok (rows.map (fun r => (List.zip r (offsets ++ List.replicate k 0)).map (fun po => (po.1.1 + po.2, po.1.2))))
+
+/-- `OneLineBuffer._modify_for_carriage_return`: looks at the first line of the first k entries; if one ends in
+CR, every field end that follows a CR moves one to the left -/
+def klineCR (k : Nat) (bs : Bytes) (rows : List (List (Nat × Nat))) : List (List (Nat × Nat)) :=
   let firstEnds := (rows.take k).filterMap (fun r => r.head?.map (·.2))
-  if ((rows.head?.bind (·.head?)).map (·.2)).getD 0 < 1 then .ok rows
+  if ((rows.head?.bind (·.head?)).map (·.2)).getD 0 < 1 then rows
   else if firstEnds.any (fun e => bs.getD (e - 1) 0 = 13) then
-    .ok (rows.map (·.map (fun p => (p.1, if bs.getD (p.2 - 1) 0 = 13 then p.2 - 1 else p.2))))
-  else .ok rows
+    rows.map (·.map (fun p => (p.1, if bs.getD (p.2 - 1) 0 = 13 then p.2 - 1 else p.2)))
+  else rows
+
+def klineRows (k : Nat) (offsets : List Nat) (bs : Bytes) : Except Err (List (List (Nat × Nat))) :=
+  (klineTable k offsets bs).map (klineCR k bs)
 
 /-- `_validate`: every entry starts with the marker; FASTQ: third line starts with '+' -/
 def klineValid (marker : Nat) (k : Nat) (bs : Bytes) (rows : List (List (Nat × Nat))) : Bool :=
